@@ -38,8 +38,9 @@ def run_studio(ctx, seed):
     counts = {c: rng.randrange(0, 7) for c in cats}
     explicit = rng.random() < 0.5
     failing = set(c for c in cats if rng.random() < 0.25)
-    consumption = rng.choice(['sequential', 'round_robin', 'random'])
-    desc = {'categories': cats, 'counts': counts, 'explicit': explicit, 'failing': sorted(failing), 'consumption': consumption, 'cassette': kind}
+    consumption = rng.choice(['sequential', 'round_robin', 'random', 'peek_then_drain'])
+    dedicated = rng.random() < 0.12
+    desc = {'categories': cats, 'counts': counts, 'explicit': explicit, 'failing': sorted(failing), 'consumption': consumption, 'cassette': kind, 'dedicated': dedicated}
     w = dict(desc, seed=seed)
     with open_box(kind, prefix=rng.choice(['', 'st'])) as box:
         rec = TapeRecorder(box.cassette)
@@ -79,46 +80,62 @@ def run_studio(ctx, seed):
         rec.disable_recording()
         tok_of = {rid: tok for c in cats for rid, tok in saved[c] + incomplete[c]}
 
-        def play_once():
-            journal = []
+        state = {'journal': [], 'failing': set(failing)}
 
-            class Tuner(EqualizerTuner):
-                def create_category_tuning(self, category):
-                    journal.append(('tuning', category, None, None))
-                    if category in failing:
-                        raise RuntimeError('no tuning for ' + category)
+        class Tuner(EqualizerTuner):
+            def create_category_tuning(self, category):
+                journal = state['journal']
+                journal.append(('tuning', category, None, None))
+                if category in state['failing']:
+                    raise RuntimeError('no tuning for ' + category)
 
-                    def playback_function(recording):
-                        journal.append(('play', category, tok_of.get(recording.id), recording.id))
-                        cls = recording.get_metadata()[TapeRecorder.OPERATION_CLASS]
-                        return cls().execute()
+                def playback_function(recording):
+                    state['journal'].append(('play', category, tok_of.get(recording.id), recording.id))
+                    cls = recording.get_metadata()[TapeRecorder.OPERATION_CLASS]
+                    return cls().execute()
 
-                    def extractor(outputs):
-                        tok = next(o.value['args'][0] for o in outputs if 'st.write' in o.key)
-                        journal.append(('extract', category, tok, None))
-                        return tok
+                def extractor(outputs):
+                    tok = next(o.value['args'][0] for o in outputs if 'st.write' in o.key)
+                    state['journal'].append(('extract', category, tok, None))
+                    return tok
 
-                    def comparator(a, b):
-                        journal.append(('compare', category, a, None))
-                        return ComparatorResult(EqualityStatus.Equal if a == b else EqualityStatus.Different, 'cat=%s tok=%s' % (category, a))
-                    return EqualizerTuning(playback_function, extractor, comparator)
-            if explicit:
-                ids = [rid for c in cats for rid, _ in saved[c]]
-                rng2 = random.Random(seed + 1)
-                rng2.shuffle(ids)
-                if not ids:
-                    return None, journal, ids
-                studio = PlaybackStudio(cats, Tuner(), rec, recording_ids=ids)
-            else:
-                ids = None
-                now = box.fake.now if box.fake is not None else datetime.datetime.utcnow()
-                studio = PlaybackStudio(cats, Tuner(), rec, lookup_properties=RecordingLookupProperties(start_date=now - datetime.timedelta(days=1), limit=20))
+                def comparator(a, b):
+                    state['journal'].append(('compare', category, a, None))
+                    return ComparatorResult(EqualityStatus.Equal if a == b else EqualityStatus.Different, 'cat=%s tok=%s' % (category, a))
+                return EqualizerTuning(playback_function, extractor, comparator)
+
+        from playback.studio.equalizer import CompareExecutionConfig
+        cfg = CompareExecutionConfig(compare_in_dedicated_process=True, compare_process_recycle_rate=3, compare_process_timeout=30) if dedicated else None
+        if explicit:
+            ids = [rid for c in cats for rid, _ in saved[c]]
+            random.Random(seed + 1).shuffle(ids)
+            if not ids:
+                ctx.case(desc, nontrivial=False)
+                return
+            studio = PlaybackStudio(cats, Tuner(), rec, recording_ids=ids, compare_execution_config=cfg)
+        else:
+            ids = None
+            now = box.fake.now if box.fake is not None else datetime.datetime.utcnow()
+            studio = PlaybackStudio(cats, Tuner(), rec, lookup_properties=RecordingLookupProperties(start_date=now - datetime.timedelta(days=1), limit=20),
+                                    compare_execution_config=cfg)
+
+        def play_once(failing_now):
+            """One play() of the SAME studio object (a regression job keeps its studio and plays it again and again)."""
+            state['journal'] = journal = []
+            state['failing'] = set(failing_now)
             res = studio.play()
             out = {c: ([] if not isinstance(g, Exception) else g) for c, g in res.items()}
             gens = {c: iter(g) for c, g in res.items() if not isinstance(g, Exception)}
             crng = random.Random(seed + 2)
+            if consumption == 'peek_then_drain':
+                for c in sorted(gens):          # look at the first result of every category, then drain them one by one
+                    try:
+                        comp = next(gens[c])
+                        out[c].append((comp.recording_id, comp.comparator_status.equality_status.name, comp.comparator_status.message))
+                    except StopIteration:
+                        del gens[c]
             while gens:
-                if consumption == 'sequential':
+                if consumption in ('sequential', 'peek_then_drain'):
                     c = sorted(gens)[0]
                 elif consumption == 'round_robin':
                     c = sorted(gens)[len(journal) % len(gens)]
@@ -129,70 +146,75 @@ def run_studio(ctx, seed):
                     out[c].append((comp.recording_id, comp.comparator_status.equality_status.name, comp.comparator_status.message))
                 except StopIteration:
                     del gens[c]
-            return out, journal, ids
+            return out, journal
 
-        first = play_once()
-        second = play_once()
+        def judge(out, journal, failing_now, which):
+            ww = dict(w, play=which, failing_now=sorted(failing_now))
+            exp_cats = [c for c in cats if (saved[c] if explicit else True)]
+            if set(out) != set(exp_cats):
+                ctx.violation('studio reports categories %r, expected %r' % (sorted(out), sorted(exp_cats)), ww)
+            for c in out:
+                if c in failing_now:
+                    ctx.count('failing_tuners_checked')
+                    if not isinstance(out[c], Exception):
+                        ctx.violation('a category whose tuning cannot be created did not yield that error', dict(ww, category=c))
+                    continue
+                if isinstance(out[c], Exception):
+                    ctx.violation('a category with a working tuner yielded an error: %r' % (out[c],), dict(ww, category=c))
+                    continue
+                got_ids = [r[0] for r in out[c]]
+                want = [rid for rid, _ in saved[c]]
+                if explicit:
+                    want_order = [rid for rid in ids if rid in set(want)]
+                    if got_ids != want_order:
+                        ctx.violation('explicit ids of a category are not each played exactly once in the given order', dict(ww, category=c, got=got_ids, want=want_order))
+                else:
+                    if sorted(got_ids) != sorted(want):
+                        foreign = [tok_of.get(r) for r in got_ids if r not in set(want)]
+                        ctx.violation('lookup-driven category received %d recordings, %d complete recordings of exactly that category exist (foreign/incomplete: %r)' % (
+                            len(got_ids), len(want), foreign[:4]), dict(ww, category=c))
+                for rid, status, msg in out[c]:
+                    ctx.count('comparisons_checked')
+                    tok = tok_of.get(rid)
+                    if status != 'Equal' or msg != 'cat=%s tok=%s' % (c, tok):
+                        ctx.violation('comparison of a recording was not produced by its own category\'s tuning (%s / %s)' % (status, (msg or '')[:80]), dict(ww, category=c, token=tok))
+            ntun = [cat for k, cat, _, _ in journal if k == 'tuning']
+            if sorted(ntun) != sorted(exp_cats):
+                ctx.violation('tuner asked for categories %r, expected once each for %r' % (ntun, exp_cats), ww)
+            if dedicated:
+                return      # playback functions ran in worker processes: their journal entries are not visible here
+            plays = {}
+            for kind_, cat, tok, rid in journal:
+                if kind_ == 'tuning':
+                    continue
+                ctx.count('journal_entries_checked')
+                if tok is None or tok.split(':')[0] != cat:
+                    ctx.violation('%s function of category %r was invoked for a recording of another category (%r)' % (kind_, cat, tok), ww)
+                if kind_ == 'play':
+                    plays[rid] = plays.get(rid, 0) + 1
+            for rid, n in plays.items():
+                if n != 1:
+                    ctx.violation('a recording was replayed %d times in one studio run' % n, dict(ww, token=tok_of.get(rid)))
+            should = set(rid for c in cats if c not in failing_now for rid, _ in saved[c])
+            if set(plays) != should:
+                ctx.violation('replayed set differs from the selected set (%d vs %d)' % (len(plays), len(should)), ww)
+
         ctx.case(desc, nontrivial=len([c for c in cats if saved[c]]) >= 2)
         ctx.count('studios_' + kind)
         ctx.count('mode_explicit' if explicit else 'mode_lookup')
-        out, journal, ids = first
-        if out is None:
-            return
-        # determinism of order
-        o2 = second[0]
-        same = all((isinstance(out[c], Exception) and isinstance(o2.get(c), Exception)) or out[c] == o2.get(c) for c in out) and set(out) == set(o2)
+        if dedicated:
+            ctx.count('studios_dedicated_process')
+        out1, j1 = play_once(failing)
+        judge(out1, j1, failing, 'first')
+        out2, j2 = play_once(failing)
+        same = set(out1) == set(out2) and all((isinstance(out1[c], Exception) and isinstance(out2.get(c), Exception)) or out1[c] == out2.get(c) for c in out1)
         if not same:
             ctx.violation('two runs of the same studio input report results in a different order / content', w)
-        # expected selection per category
-        exp_cats = [c for c in cats if (saved[c] if explicit else True)]
-        if set(out) != set(exp_cats):
-            ctx.violation('studio reports categories %r, expected %r' % (sorted(out), sorted(exp_cats)), w)
-        for c in out:
-            if c in failing:
-                ctx.count('failing_tuners_checked')
-                if not isinstance(out[c], Exception):
-                    ctx.violation('a category whose tuning cannot be created did not yield that error', dict(w, category=c))
-                continue
-            if isinstance(out[c], Exception):
-                ctx.violation('a category with a working tuner yielded an error: %r' % (out[c],), dict(w, category=c))
-                continue
-            got_ids = [r[0] for r in out[c]]
-            want = [rid for rid, _ in saved[c]]
-            if explicit:
-                want_order = [rid for rid in ids if rid in set(want)]
-                if got_ids != want_order:
-                    ctx.violation('explicit ids of a category are not each played exactly once in the given order', dict(w, category=c, got=got_ids, want=want_order))
-            else:
-                if sorted(got_ids) != sorted(want):
-                    foreign = [tok_of.get(r) for r in got_ids if r not in set(want)]
-                    ctx.violation('lookup-driven category received %d recordings, %d complete recordings of exactly that category exist (foreign/incomplete: %r)' % (
-                        len(got_ids), len(want), foreign[:4]), dict(w, category=c))
-            for rid, status, msg in out[c]:
-                ctx.count('comparisons_checked')
-                tok = tok_of.get(rid)
-                if status != 'Equal' or msg != 'cat=%s tok=%s' % (c, tok):
-                    ctx.violation('comparison of a recording was not produced by its own category\'s tuning (%s / %s)' % (status, msg), dict(w, category=c, token=tok))
-        # journal attribution: every function of category X only ever saw recordings of category X, each exactly once
-        plays = {}
-        for kind_, cat, tok, rid in journal:
-            if kind_ == 'tuning':
-                continue
-            ctx.count('journal_entries_checked')
-            if tok is None or tok.split(':')[0] != cat:
-                ctx.violation('%s function of category %r was invoked for a recording of another category (%r)' % (kind_, cat, tok), w)
-            if kind_ == 'play':
-                plays[rid] = plays.get(rid, 0) + 1
-        for rid, n in plays.items():
-            if n != 1:
-                ctx.violation('a recording was replayed %d times in one studio run' % n, dict(w, token=tok_of.get(rid)))
-        played = set(plays)
-        should = set(rid for c in cats if c not in failing for rid, _ in saved[c])
-        if played != should:
-            ctx.violation('replayed set differs from the selected set (%d vs %d)' % (len(played), len(should)), w)
-        ntun = [cat for k, cat, _, _ in journal if k == 'tuning']
-        if sorted(ntun) != sorted(exp_cats):
-            ctx.violation('tuner asked for categories %r, expected once each for %r' % (ntun, exp_cats), w)
+        # the tuner's situation changes between two plays of the same studio (a fixed tuner, a new failure)
+        failing3 = set(c for c in cats if (c in failing) != (rng.random() < 0.5))
+        out3, j3 = play_once(failing3)
+        judge(out3, j3, failing3, 'third (tuner situation changed)')
+        ctx.count('plays_of_one_studio', 3)
 
 
 def run(ctx):
